@@ -515,13 +515,23 @@ class Interp:
                      Forall(lambda k1, k2: Implies(And(in_range(k1, m), in_range(k2, m), k1 != k2), I(tgt(k1)) != I(tgt(k2))), nvars=2),
                      "safety", lineno, "scatter targets are pairwise distinct (else NumPy's result is order dependent)")
             # with unique targets the source index of a written position is unique
-            c.assume(Forall(lambda k: Implies(in_range(k, m), hit(I(tgt(k))) == I(k)), triggers=[], name="scatter.hit.unique"))
+            cm = conc(m)
+            if isinstance(cm, int) and cm <= 16:
+                for k in range(cm):                  # concrete, small index array: state the facts outright
+                    c.assume(hit(I(tgt(k))) == k)
+            else:
+                c.assume(Forall(lambda k: Implies(in_range(k, m), hit(I(tgt(k))) == I(k)), triggers=[], name="scatter.hit.unique"))
             val = lambda p: fv(hit(I(p)))
         else:
             vv = self.elem_const(v)
             val = lambda p: vv
-            c.assume(Forall(lambda k: Implies(in_range(k, m), And(in_range(hit(I(tgt(k))), m), I(tgt(hit(I(tgt(k))))) == I(tgt(k)))),
-                            triggers=[], name="scatter.hit"))
+            cm = conc(m)
+            if isinstance(cm, int) and cm <= 16:
+                for k in range(cm):
+                    c.assume(And(in_range(hit(I(tgt(k))), m), I(tgt(hit(I(tgt(k))))) == I(tgt(k))))
+            else:
+                c.assume(Forall(lambda k: Implies(in_range(k, m), And(in_range(hit(I(tgt(k))), m), I(tgt(hit(I(tgt(k))))) == I(tgt(k)))),
+                                triggers=[], name="scatter.hit"))
         is_hit = lambda p: And(in_range(hit(I(p)), m), I(tgt(hit(I(p)))) == I(p))
         self.store_view(obj.with_(), lambda p: Ite(is_hit(p), val(p), old(p)), lineno)
 
@@ -712,17 +722,19 @@ class Interp:
         return self.eval(e.orelse, env)
 
     def e_BoolOp(self, e, env):
+        """`a and b` / `a or b` return one of their OPERANDS (Python semantics), decided by the operand's truth value"""
         isand = isinstance(e.op, ast.And)
         v = None
-        for x in e.values:
+        for k, x in enumerate(e.values):
             v = self.eval(x, env)
-            t = self.to_bool(v, e.lineno)
-            d = self.ctx.branch(t, e.lineno)
+            if k == len(e.values) - 1:
+                return v
+            d = self.ctx.branch(self.to_bool(v, e.lineno), e.lineno)
             if isand and not d:
-                return v if not is_sym(t) else False
+                return v
             if not isand and d:
-                return v if not is_sym(t) else True
-        return v if not is_sym(self.to_bool(v)) else (True if isand else False)
+                return v
+        return v
 
     def e_UnaryOp(self, e, env):
         v = self.eval(e.operand, env)
